@@ -13,16 +13,20 @@ Proof. intros. unfold s2_minInt. cbn. destruct (Z.ltb_spec y x); lia. Qed.
 Lemma maxInt1 : forall x y, s2_maxInt x [y] = Z.max x y.
 Proof. intros. unfold s2_maxInt. cbn. destruct (Z.ltb_spec x y); lia. Qed.
 
-(** What the theorems need of normalizeCovering's "very large covering" branch
-    ([NewRegionCoverer().Covering(&covering)]): it returns valid cells that cover its argument and
-    are not deeper than the deepest cell of the argument. *)
-Definition FallbackOK (fallback : list Z -> option (list Z)) : Prop :=
-  forall l, all_valid l -> exists r, fallback l = Some r /\ all_valid r /\
-    (forall x, is_leaf x -> covered l x -> covered r x) /\
-    (forall o, In o r -> exists c, In c l /\ s2_CellID_Level o <= s2_CellID_Level c).
-
   (** level conditions that survive Normalize and are re-established by Denormalize *)
 Definition good_level (minL md M L : Z) : Prop := minL <= L <= M /\ (L - minL) mod md = 0.
+Definition cv_good (cv : coverer) (o : Z) : Prop :=
+  good_level (minLevel cv) (levelMod cv) (Z.max (minLevel cv) (maxLevel cv)) (s2_CellID_Level o).
+
+(** What the theorems need of normalizeCovering's "very large covering" branch
+    ([rc.Covering(&covering)] with the coverer's own options), split into partial correctness
+    and totality: a returned list consists of valid cells at admissible levels that cover the argument. *)
+Definition fb_post (cv : coverer) (l r : list Z) : Prop :=
+  all_valid r /\ (forall x, is_leaf x -> covered l x -> covered r x) /\ Forall (cv_good cv) r.
+Definition FallbackSound (fallback : coverer -> list Z -> option (list Z)) : Prop :=
+  forall cv l r, wf_cv cv -> all_valid l -> normal l -> fallback cv l = Some r -> fb_post cv l r.
+Definition FallbackTotal (fallback : coverer -> list Z -> option (list Z)) : Prop :=
+  forall cv l, wf_cv cv -> all_valid l -> normal l -> exists r, fallback cv l = Some r.
 
 Local Ltac Zify.zify_post_hook ::= Z.div_mod_to_equations.
 Lemma denorm_level_good : forall minL md M L, 0 <= minL <= 30 -> 1 <= md <= 3 -> 0 <= L <= 30 -> M <= 30 ->
@@ -328,36 +332,38 @@ Section Replace.
   Qed.
 
   (** the invariant of the greedy merging loop *)
-  Definition ginv (M : Z) (cov0 cov : list Z) : Prop :=
+  Definition ginv (cov0 cov : list Z) : Prop :=
     all_valid cov /\ sorted_ids cov /\ (forall x, covered cov0 x -> covered cov x) /\
-    (forall o, In o cov -> s2_CellID_Level o <= M).
+    Forall (cv_good cv) cov.
 
-  Lemma replace_ginv : forall M cov0 cov id L, ginv M cov0 cov -> valid_at id L -> L <= M ->
-    ginv M cov0 (replaceCellsWithAncestor cov id).
+  Lemma replace_ginv : forall cov0 cov id L, ginv cov0 cov -> valid_at id L -> cv_good cv id ->
+    ginv cov0 (replaceCellsWithAncestor cov id).
   Proof.
-    intros M cov0 cov id L (V & S & C & Lv) Vid HL.
+    intros cov0 cov id L (V & S & C & Lv) Vid HL.
     destruct (replace_spec cov id V S ltac:(exists L; exact Vid)) as (R1 & R2 & R3 & R4).
     split; [exact R1|]. split; [exact R2|]. split; [intros x Hx; apply R3, C, Hx|].
-    intros o Ho. destruct (R4 o Ho) as [->|Ho']; [rewrite (level_spec _ _ Vid); exact HL|apply Lv; exact Ho'].
+    apply Forall_forall. intros o Ho. rewrite Forall_forall in Lv.
+    destruct (R4 o Ho) as [->|Ho']; [exact HL|apply Lv; exact Ho'].
   Qed.
 
-  Lemma merge_up_ginv : forall M cov0 fuel cov id L, ginv M cov0 cov -> valid_at id L -> L <= M ->
-    (L <= minLevel cv \/ (L - minLevel cv) mod levelMod cv = 0) ->
-    ginv M cov0 (merge_up cv fuel cov id L).
+  Lemma merge_up_ginv : forall cov0 fuel cov id L, ginv cov0 cov -> valid_at id L -> cv_good cv id ->
+    ginv cov0 (merge_up cv fuel cov id L).
   Proof using Hwf.
-    intros M cov0. destruct Hwf as (Hmin & Hmax & Hmod).
-    induction fuel as [|fuel IH]; intros cov id L G Vid HL Hcong; cbn [merge_up]; [exact G|].
+    intros cov0. destruct Hwf as (Hmin & Hmax & Hmod).
+    induction fuel as [|fuel IH]; intros cov id L G Vid HL; cbn [merge_up]; [exact G|].
     destruct (Z.gtb_spec L (minLevel cv)) as [Hgt|Hle]; [|exact G].
-    destruct Hcong as [Hc|Hc]; [lia|].
+    pose proof HL as HL0. unfold cv_good, good_level in HL. rewrite (level_spec _ _ Vid) in HL. destruct HL as (HLr & Hc).
     assert (Hstep : minLevel cv <= L - levelMod cv).
     { pose proof (Z.div_mod (L - minLevel cv) (levelMod cv) ltac:(lia)) as Hd. rewrite Hc in Hd.
       assert (1 <= (L - minLevel cv) / levelMod cv) by nia. nia. }
     assert (Vp : valid_at (s2_CellID_Parent id (L - levelMod cv)) (L - levelMod cv)).
     { apply (parent_valid id L); [exact Vid|lia]. }
+    assert (Gp : cv_good cv (s2_CellID_Parent id (L - levelMod cv))).
+    { unfold cv_good, good_level. rewrite (level_spec _ _ Vp). split; [lia|].
+      replace (L - levelMod cv - minLevel cv) with ((L - minLevel cv) + (-1) * levelMod cv) by ring.
+      rewrite Z.mod_add by lia. exact Hc. }
     destruct (containsAllChildren cv cov (s2_CellID_Parent id (L - levelMod cv))); cbn [negb]; [|exact G].
-    apply IH; [eapply replace_ginv; eauto; lia|exact Vp|lia|].
-    right. replace (L - levelMod cv - minLevel cv) with ((L - minLevel cv) + (-1) * levelMod cv) by ring.
-    rewrite Z.mod_add by lia. exact Hc.
+    apply IH; [eapply replace_ginv; eauto|exact Vp|exact Gp].
   Qed.
 
   Lemma best_pair_spec : forall cov, all_valid cov ->
@@ -392,10 +398,9 @@ Section Replace.
     - left. reflexivity.
   Qed.
 
-  Lemma greedy_ginv : forall M cov0 fuel cov, Z.max (minLevel cv) 0 <= M -> ginv M cov0 cov ->
-    ginv M cov0 (greedy_merge cv fuel cov).
+  Lemma greedy_ginv : forall cov0 fuel cov, ginv cov0 cov -> ginv cov0 (greedy_merge cv fuel cov).
   Proof using Hwf.
-    intros M cov0. induction fuel as [|fuel IH]; intros cov HM G; cbn [greedy_merge]; [exact G|].
+    intros cov0. induction fuel as [|fuel IH]; intros cov G; cbn [greedy_merge]; [exact G|].
     destruct (len cov >? maxCells cv); [|exact G].
     pose proof (best_pair_spec cov ltac:(destruct G; assumption)) as Hbp.
     destruct (best_pair cv cov) as (bi, bl).
@@ -404,25 +409,41 @@ Section Replace.
     destruct (adjustLevel_spec cv Hwf l ltac:(destruct Vb; lia)) as (Hal & Hmodl).
     set (bl := adjustLevel cv l) in *.
     assert (Vid : valid_at (s2_CellID_Parent (nthZ cov bi 0) bl) bl) by (apply (parent_valid _ L); [exact Vb|lia]).
-    assert (HblM : bl <= M).
-    { destruct G as (_ & _ & _ & Lv). specialize (Lv _ (nthZ_in cov bi Hbi)). rewrite (level_spec _ _ Vb) in Lv. lia. }
-    apply IH; [exact HM|].
-    apply merge_up_ginv; [eapply replace_ginv; eauto|exact Vid|exact HblM|].
-    right. apply Hmodl. lia.
+    assert (Gid : cv_good cv (s2_CellID_Parent (nthZ cov bi 0) bl)).
+    { destruct G as (_ & _ & _ & Lv). rewrite Forall_forall in Lv. specialize (Lv _ (nthZ_in cov bi Hbi)).
+      unfold cv_good, good_level in *. rewrite (level_spec _ _ Vb) in Lv. rewrite (level_spec _ _ Vid).
+      split; [lia|apply Hmodl; lia]. }
+    apply IH. apply merge_up_ginv; [eapply replace_ginv; eauto|exact Vid|exact Gid].
   Qed.
 End Replace.
 
 (* ---------------------------------------------------------------------- *)
 (** * normalizeCovering and FastCovering *)
-Lemma normalizeCovering_spec : forall fallback cv l, wf_cv cv -> FallbackOK fallback -> all_valid l ->
-  exists r, normalizeCovering fallback cv l = Some r /\ all_valid r /\
-    (forall x, is_leaf x -> covered l x -> covered r x) /\
-    (forall o, In o r -> s2_CellID_Level o <= Z.max (minLevel cv) (maxLevel cv)).
+(** the three preparatory stages of normalizeCovering *)
+Definition nc_cov3 (cv : coverer) (covering : list Z) : list Z :=
+  let cov1 := if (maxLevel cv <? 30) || (levelMod cv >? 1) then
+                map (fun ci => let level := s2_CellID_Level ci in
+                               let newLevel := adjustLevel cv (s2_minInt level [maxLevel cv]) in
+                               if negb (newLevel =? level) then s2_CellID_Parent ci newLevel else ci) covering
+              else covering in
+  let cov2 := cu_Normalize cov1 in
+  if (minLevel cv >? 0) || (levelMod cv >? 1) then cu_Denormalize (minLevel cv) (levelMod cv) cov2 else cov2.
+
+Lemma normalizeCovering_unfold : forall fallback cv l,
+  normalizeCovering fallback cv l =
+  let cov3 := nc_cov3 cv l in
+  if (len cov3 - maxCells cv <=? 0) || isCanonical cv cov3 then Some cov3
+  else if (len cov3 - maxCells cv) * len cov3 >? 10000 then fallback cv cov3
+  else Some (greedy_merge cv (length cov3) cov3).
+Proof. reflexivity. Qed.
+
+Lemma nc_cov3_spec : forall cv l, wf_cv cv -> all_valid l ->
+  all_valid (nc_cov3 cv l) /\ normal (nc_cov3 cv l) /\
+  (forall x, is_leaf x -> covered l x -> covered (nc_cov3 cv l) x) /\ Forall (cv_good cv) (nc_cov3 cv l).
 Proof.
-  intros fallback cv l Hwf HFB Vl. pose proof Hwf as (Hmin & Hmax & Hmod).
+  intros cv l Hwf Vl. pose proof Hwf as (Hmin & Hmax & Hmod).
   set (M := Z.max (minLevel cv) (maxLevel cv)).
-  unfold normalizeCovering.
-  (* stage 1: cut down to maxLevel / levelMod *)
+  unfold nc_cov3.
   set (f := fun ci => let level := s2_CellID_Level ci in
                       let newLevel := adjustLevel cv (s2_minInt level [maxLevel cv]) in
                       if negb (newLevel =? level) then s2_CellID_Parent ci newLevel else ci).
@@ -451,15 +472,13 @@ Proof.
       + apply Forall_forall. intros o Ho. apply in_map_iff in Ho. destruct Ho as (ci & <- & Hci).
         destruct (Hf ci (Vl ci Hci)) as (V & _ & Hle & Hm). apply Hup; assumption.
       + intros o Ho. apply in_map_iff in Ho. destruct Ho as (ci & <- & Hci). apply Hf, Vl, Hci.
-    - (* no cut: maxLevel = 30 and levelMod = 1 *)
-      assert (maxLevel cv = 30 /\ levelMod cv = 1) as (E30 & E1) by lia.
+    - assert (maxLevel cv = 30 /\ levelMod cv = 1) as (E30 & E1) by lia.
       unfold all_valid in *. rewrite Forall_forall in Vl. split; [apply Forall_forall; exact Vl|]. split; [auto|]. split.
       + apply Forall_forall. intros c Hc. destruct (Vl c Hc) as (L & Vc). apply Hup; [eexists; exact Vc| |].
         * rewrite (level_spec _ _ Vc). destruct Vc; lia.
         * intros _. rewrite E1. apply Z.mod_1_r.
       + intros o Ho. destruct (Vl o Ho) as (L & Vc). rewrite (level_spec _ _ Vc). destruct Vc; lia. }
   clearbody cov1. destruct H1 as (V1 & C1 & U1 & Lv1).
-  (* stage 2: Normalize *)
   set (cov2 := cu_Normalize cov1).
   pose proof (normalize_valid cov1 V1) as V2. pose proof (normalize_normal cov1 V1) as N2.
   assert (C2 : forall x, covered l x -> covered cov2 x) by (intros x Hx; apply normalize_covers; auto).
@@ -468,34 +487,48 @@ Proof.
     rewrite Forall_forall in U1. destruct (U1 c Hc) as (G & HG & HcG). exists G. split; [exact HG|lia]. }
   assert (Lv2 : forall o, In o cov2 -> s2_CellID_Level o <= maxLevel cv).
   { intros o Ho. destruct (normalize_level cov1 V1 o Ho) as (c & Hc & _ & Hlev). specialize (Lv1 c Hc). lia. }
-  fold cov2 in V2, N2. fold cov2. clearbody cov2.
-  (* stage 3: Denormalize *)
-  set (cov3 := if (minLevel cv >? 0) || (levelMod cv >? 1) then cu_Denormalize (minLevel cv) (levelMod cv) cov2 else cov2).
-  assert (H3 : all_valid cov3 /\ normal cov3 /\ (forall x, is_leaf x -> covered l x -> covered cov3 x) /\
-               (forall o, In o cov3 -> s2_CellID_Level o <= M)).
-  { unfold cov3. destruct ((minLevel cv >? 0) || (levelMod cv >? 1)).
-    - split; [exact (denormalize_valid _ _ cov2 Hmin Hmod V2)|]. split; [exact (denormalize_normal _ _ cov2 Hmin Hmod V2 N2)|]. split.
-      + intros x Hx Hc. apply (denormalize_covers _ _ cov2 Hmin Hmod V2 x Hx). apply C2. exact Hc.
-      + intros o Ho. destruct (denormalize_level _ _ cov2 Hmin Hmod V2 o Ho) as (c & Hc & _ & Hlev).
-        rewrite Hlev. unfold all_valid in V2. rewrite Forall_forall in V2, U2. destruct (V2 c Hc) as (L & Vc).
-        rewrite (level_spec _ _ Vc).
-        assert (HG : good_level (minLevel cv) (levelMod cv) M (denorm_level (minLevel cv) (levelMod cv) L)).
-        { apply denorm_level_good; auto; [destruct Vc; lia|unfold M; lia|].
-          destruct (U2 c Hc) as (G & HG & HcG). rewrite (level_spec _ _ Vc) in HcG. exists G; auto. }
-        destruct HG as (HG & _). lia.
-    - split; [exact V2|]. split; [exact N2|]. split; [auto|]. intros o Ho. specialize (Lv2 o Ho). unfold M. lia. }
-  clearbody cov3. destruct H3 as (V3 & N3 & C3 & Lv3).
-  cbv zeta.
+  fold cov2 in V2, N2. clearbody cov2.
+  destruct ((minLevel cv >? 0) || (levelMod cv >? 1)) eqn:Eden.
+  - split; [exact (denormalize_valid _ _ cov2 Hmin Hmod V2)|]. split; [exact (denormalize_normal _ _ cov2 Hmin Hmod V2 N2)|]. split.
+    + intros x Hx Hc. apply (denormalize_covers _ _ cov2 Hmin Hmod V2 x Hx). apply C2. exact Hc.
+    + apply Forall_forall. intros o Ho. destruct (denormalize_level _ _ cov2 Hmin Hmod V2 o Ho) as (c & Hc & _ & Hlev).
+      unfold cv_good. rewrite Hlev. unfold all_valid in V2. rewrite Forall_forall in V2, U2. destruct (V2 c Hc) as (L & Vc).
+      rewrite (level_spec _ _ Vc). fold M.
+      apply denorm_level_good; auto; [destruct Vc; lia|unfold M; lia|].
+      destruct (U2 c Hc) as (G & HG & HcG). rewrite (level_spec _ _ Vc) in HcG. exists G; auto.
+  - assert (minLevel cv = 0 /\ levelMod cv = 1) as (E0 & E1) by lia.
+    split; [exact V2|]. split; [exact N2|]. split; [auto|].
+    apply Forall_forall. intros o Ho. specialize (Lv2 o Ho). unfold cv_good, good_level. fold M.
+    unfold all_valid in V2. rewrite Forall_forall in V2. destruct (V2 o Ho) as (L & Vo). rewrite (level_spec _ _ Vo) in *.
+    split; [destruct Vo; unfold M; lia|]. rewrite E1. apply Z.mod_1_r.
+Qed.
+
+(** partial correctness of normalizeCovering *)
+Lemma normalizeCovering_sound : forall fallback cv l r, wf_cv cv -> FallbackSound fallback -> all_valid l ->
+  normalizeCovering fallback cv l = Some r -> fb_post cv l r.
+Proof.
+  intros fallback cv l r Hwf HFS Vl Hr. rewrite normalizeCovering_unfold in Hr. cbv zeta in Hr.
+  destruct (nc_cov3_spec cv l Hwf Vl) as (V3 & N3 & C3 & G3).
+  set (cov3 := nc_cov3 cv l) in *.
   destruct ((len cov3 - maxCells cv <=? 0) || isCanonical cv cov3).
-  - exists cov3. auto.
+  - injection Hr as <-. split; [exact V3|]. split; [exact C3|exact G3].
   - destruct ((len cov3 - maxCells cv) * len cov3 >? 10000).
-    + destruct (HFB cov3 V3) as (r & Er & Vr & Cr & Lr). exists r. split; [exact Er|]. split; [exact Vr|]. split.
-      * intros x Hx Hc. apply Cr; auto.
-      * intros o Ho. destruct (Lr o Ho) as (c & Hc & Hlev). specialize (Lv3 c Hc). fold M. lia.
-    + pose proof (greedy_ginv cv Hwf M cov3 (length cov3) cov3 ltac:(unfold M; lia)) as G.
-      destruct G as (Vg & _ & Cg & Lg).
+    + destruct (HFS cv cov3 r Hwf V3 N3 Hr) as (Vr & Cr & Gr).
+      split; [exact Vr|]. split; [|exact Gr]. intros x Hx Hc. apply Cr; auto.
+    + injection Hr as <-.
+      destruct (greedy_ginv cv Hwf cov3 (length cov3) cov3) as (Vg & _ & Cg & Lg).
       { split; [exact V3|]. split; [apply normal_sorted; assumption|]. split; auto. }
-      eexists. split; [reflexivity|]. split; [exact Vg|]. split; [intros x Hx Hc; apply Cg, C3; auto|exact Lg].
+      split; [exact Vg|]. split; [intros x Hx Hc; apply Cg, C3; auto|exact Lg].
+Qed.
+
+Lemma normalizeCovering_total : forall fallback cv l, wf_cv cv -> FallbackTotal fallback -> all_valid l ->
+  exists r, normalizeCovering fallback cv l = Some r.
+Proof.
+  intros fallback cv l Hwf HFT Vl. rewrite normalizeCovering_unfold. cbv zeta.
+  destruct (nc_cov3_spec cv l Hwf Vl) as (V3 & N3 & _).
+  set (cov3 := nc_cov3 cv l) in *.
+  destruct ((len cov3 - maxCells cv <=? 0) || isCanonical cv cov3); [eexists; reflexivity|].
+  destruct ((len cov3 - maxCells cv) * len cov3 >? 10000); [apply HFT; assumption|eexists; reflexivity].
 Qed.
 
 Lemma newCoverer_wf0 : forall rc b, wf_cv (newCoverer rc b).
@@ -504,11 +537,14 @@ Proof.
   unfold clampMinLevel, clampMaxLevel, clampLevelMod. rewrite !minInt1, !maxInt1. lia.
 Qed.
 
-Lemma FastCovering_spec : forall bound fallback rc, FallbackOK fallback -> all_valid bound ->
-  exists r, FastCovering bound fallback rc = Some r /\ all_valid r /\
-    (forall x, is_leaf x -> covered bound x -> covered r x) /\
-    (forall o, In o r -> s2_CellID_Level o <= Z.max (minLevel (newCoverer rc false)) (maxLevel (newCoverer rc false))).
+Lemma FastCovering_sound : forall bound fallback rc r, FallbackSound fallback -> all_valid bound ->
+  FastCovering bound fallback rc = Some r -> fb_post (newCoverer rc false) bound r.
 Proof.
-  intros bound fallback rc HFB Vb. unfold FastCovering.
-  apply normalizeCovering_spec; auto. apply newCoverer_wf0.
+  intros bound fallback rc r HFS Vb Hr. unfold FastCovering in Hr.
+  eapply normalizeCovering_sound; eauto. apply newCoverer_wf0.
+Qed.
+Lemma FastCovering_total : forall bound fallback rc, FallbackTotal fallback -> all_valid bound ->
+  exists r, FastCovering bound fallback rc = Some r.
+Proof.
+  intros bound fallback rc HFT Vb. unfold FastCovering. apply normalizeCovering_total; auto. apply newCoverer_wf0.
 Qed.
